@@ -488,7 +488,7 @@ def gen_drt_job(rng, allow_slow=False):
         if rng.random() < 0.8:
             opts["mode"] = str(rng.choice(["real", "imaginary", "complex"]))
         if rng.random() < 0.6:
-            opts["lambda_value"] = float(rng.choice([1e-4, 1e-3, 1e-2, 0.1, 3e-3]))
+            opts["lambda_value"] = float(rng.choice([1e-4, 1e-3, 1e-2, 0.1, 3e-3, -2.0, -3.0, -0.5, 0.0]))  # every documented regime: fixed, custom suggestion (-1.5..0], L-curve (< -1.5)
         if rng.random() < 0.8:
             opts["max_iter"] = 100000  # default iteration budget of scipy's nnls fails on ~24 % of spectra (C18 finding)
     elif r < 0.88 or not allow_slow:
@@ -588,7 +588,7 @@ def gen_drt_multi_job(rng):
         mid = str(rng.choice(["CIRCUIT_1", "CIRCUIT_2", "CIRCUIT_3", "CIRCUIT_5", "CIRCUIT_13"]))
         opts["mode"] = str(rng.choice(["real", "imaginary", "complex"]))
         if rng.random() < 0.5:
-            opts["lambda_value"] = float(rng.choice([1e-3, 1e-2]))
+            opts["lambda_value"] = float(rng.choice([1e-3, 1e-2, -2.0]))
         opts["max_iter"] = 100000
     else:
         job["method"] = "mrq-fit"
